@@ -10,7 +10,7 @@ TECHNIQUE = 'runtime monitoring: write/connectTCP hooks + REST state probe after
 RULE = ('event sequences from boot over the C12-regime alphabet with STOP/START (REST manual-stop/-start) at every position; '
         'every sequence ending in the stopped state is continued with 300 s of silent time (pending timers/attempts play out), '
         'then manual-start and a cooperative peer, a peer close and the cooperative peer again (automatic recovery in force); '
-        'distinct = distinct abstract world fingerprints x stopped flag')
+        'a stop repeated while stopped must write nothing; searches from boot and from 6 prefix sessions, close completion also as a late separate event; distinct = distinct abstract world fingerprints x stopped flag')
 ASSUMPTIONS = ['simulated Twisted reactor/connector/transport (verif/shims)', 'REST requests are atomic events between reactor callbacks']
 SHARD_TIMEOUT = {'quick': 240, 'thorough': 1500}
 DEPTH = {'quick': (3, 7), 'thorough': (4, 10)}
